@@ -1135,23 +1135,21 @@ Variable e : env.
 Variable k : nat.
 Hypothesis Hwf : wf_schema k e.
 
-(* the members before a missing required member decode; the missing one is an error *)
-Lemma fields_required_absent : forall fuel fds1 vs1 ps1 ps2 Js lo fd fds2 tail,
+(* the members before a member whose own decoding fails decode; then the failure is the result *)
+Lemma fields_member_error : forall fuel fds1 vs1 ps1 ps2 Js lo fd fds2 tail,
   Forall2 (fun fd x => has_type e (fty fd) x) fds1 vs1 -> Forall (member_ok e k) fds1 ->
   asc_opt lo (fds1 ++ fd :: fds2) ->
   Forall2 (fun fd p => prior_ok e (fty fd) (fdef fd) p) fds1 ps1 -> junks_ok lo fds1 Js ->
-  freq fd = true -> follows (ftag fd) tail ->
+  (forall f' prior, (2 * length tail + 4 <= f')%nat -> dec_var f' e (ftag fd) (freq fd) (fty fd) prior tail = DErr) ->
+  (forall fd1, In fd1 fds1 -> follows (ftag fd1) tail) ->
   fuel_ok k (S (need_list vs1)) (encx_fields e vs1 fds1 Js ++ tail) fuel ->
   dec_fields fuel e (fds1 ++ fd :: fds2) (ps1 ++ ps2) (encx_fields e vs1 fds1 Js ++ tail) = DErr.
 Proof.
-  induction fuel as [|f IH]; intros fds1 vs1 ps1 ps2 Js lo fd fds2 tail Hty Hmem Hasc Hps HJ Hreq Hfo Hf;
+  induction fuel as [|f IH]; intros fds1 vs1 ps1 ps2 Js lo fd fds2 tail Hty Hmem Hasc Hps HJ Hfail Hfol Hf;
     [unfold fuel_ok in Hf; lia|].
   rewrite dec_fields_S. destruct Hty as [|fd1 x fds1 vs1 Hx Hvs].
-  - destruct Js; [|contradiction]. inversion Hps; subst. cbn [app encx_fields] in *. cbv zeta. rewrite Hreq.
-    destruct f as [|f0]; [unfold fuel_ok in Hf; lia|].
-    pose proof (member_absent_required e f0 (ftag fd) (fty fd) (match ps2 with p :: _ => p | [] => zero_of (S f0) e (fty fd) end)
-                  None [] tail (junk_nil None (ftag fd)) Hfo) as H1.
-    cbn [ser_fields app] in H1. rewrite H1; [reflexivity|]. unfold fuel_ok in Hf. cbn [need_list] in Hf. lia.
+  - destruct Js; [|contradiction]. inversion Hps; subst. cbn [app encx_fields] in *. cbv zeta.
+    rewrite Hfail; [reflexivity|]. unfold fuel_ok in Hf. cbn [need_list] in Hf. lia.
   - inversion Hps as [|? p ? ps' Hp Hps']; subst. destruct Js as [|J Js]; [contradiction|]. destruct HJ as [HJ HJs].
     inversion Hmem as [|? ? [Hm1 Hm2] Hmem']; subst.
     assert (H256 : ftag fd1 < 256 /\ ascending (ftag fd1) (fds1 ++ fd :: fds2)).
@@ -1160,17 +1158,17 @@ Proof.
     cbn [app encx_fields tl] in *. rewrite <- !app_assoc in *. cbv zeta.
     unfold fuel_ok in Hf. cbn [need_list] in Hf. rewrite !app_length in Hf.
     destruct (rt_all e k Hwf f) as (HV & _).
-    destruct (ascending_app_mid _ _ _ _ Hasc') as (Hlt & _ & _).
     assert (H1 : dec_var f e (ftag fd1) (freq fd1) (fty fd1) p
                    (ser_fields J ++ enc_var e (ftag fd1) (freq fd1) (fty fd1) (fdef fd1) x ++ encx_fields e vs1 fds1 Js ++ tail)
                  = DOk (norm e (fty fd1) (freq fd1) (fdef fd1) x) (encx_fields e vs1 fds1 Js ++ tail)).
     { apply (HV (ftag fd1) (freq fd1) (fty fd1) (fdef fd1) x p lo J); try assumption.
       - right. apply (follows_encx e fds1 vs1 Js (ftag fd1)); try assumption; [lia|now apply ascending_app_l in Hasc'|].
-        apply (follows_mono _ (ftag fd)); [lia|assumption].
+        apply Hfol. now left.
       - unfold fuel_ok. rewrite !app_length. lia. }
     rewrite H1.
-    rewrite (IH fds1 vs1 ps' ps2 Js (Some (ftag fd1)) fd fds2 tail); try assumption; [reflexivity|].
-    unfold fuel_ok. rewrite app_length. lia.
+    rewrite (IH fds1 vs1 ps' ps2 Js (Some (ftag fd1)) fd fds2 tail); try assumption; [reflexivity| |].
+    + intros fd' Hin. apply Hfol. now right.
+    + unfold fuel_ok. rewrite app_length. lia.
 Qed.
 End Absent.
 
@@ -1187,6 +1185,56 @@ Proof. induction a as [|x a IH]; cbn [tmax fold_right app]; [lia|]. fold (tmax g
 Lemma schema_ascending_mid a fd b : schema_ascending (a ++ fd :: b) -> ascending (ftag fd) b.
 Proof.
   destruct a as [|x a]; cbn [app schema_ascending]; [tauto|]. intros [_ H]. apply ascending_app_mid in H. tauto.
+Qed.
+
+Lemma ascending_all_gt p a : ascending p a -> forall fd, In fd a -> p < ftag fd.
+Proof.
+  revert p. induction a as [|x a IH]; intros p H fd Hin; [contradiction|]. cbn [ascending] in H. destruct H as (H1 & H2 & H3).
+  destruct Hin as [->|Hin]; [assumption|]. specialize (IH _ H3 fd Hin). lia.
+Qed.
+Lemma ascending_before fd b fd1 : forall l p, ascending p (l ++ fd :: b) -> In fd1 l -> ftag fd1 < ftag fd.
+Proof.
+  induction l as [|y l IH]; intros p Hl Hi; [contradiction|]. cbn [app ascending] in Hl. destruct Hl as (_ & _ & Hl).
+  destruct Hi as [->|Hi]; [|now apply (IH _ Hl)].
+  apply (ascending_all_gt _ _ Hl). apply in_or_app. right. now left.
+Qed.
+Lemma schema_ascending_before a fd b fd1 : schema_ascending (a ++ fd :: b) -> In fd1 a -> ftag fd1 <= ftag fd.
+Proof.
+  intros H Hin. destruct a as [|x a]; [contradiction|]. cbn [app schema_ascending] in H. destruct H as [_ H].
+  destruct Hin as [->|Hin].
+  - pose proof (ascending_all_gt _ _ H fd ltac:(apply in_or_app; right; now left)). lia.
+  - pose proof (ascending_before fd b fd1 a _ H Hin). lia.
+Qed.
+
+(* an input in which the members before fd are encoded normally and what follows makes fd's own decoding fail *)
+Theorem struct_member_error e k n sid fds1 fd fds2 vs1 tail :
+  wf_schema k e -> (S k <= 64)%nat -> fields_of e sid = fds1 ++ fd :: fds2 ->
+  Forall2 (fun fd x => has_type e (fty fd) x) fds1 vs1 ->
+  (forall f' prior, (2 * length tail + 4 <= f')%nat -> dec_var f' e (ftag fd) (freq fd) (fty fd) prior tail = DErr) ->
+  (forall fd1, In fd1 fds1 -> follows (ftag fd1) tail) ->
+  tfin n e (TStruct sid) = true -> (tneed n e (TStruct sid) + k <= 64)%nat ->
+  decode e sid (enc_fields e vs1 fds1 ++ tail) = DErr.
+Proof.
+  intros Hwf Hk Hsid H1 Hfail Hfo Hfin Hn. unfold decode, decode_into.
+  set (bs := enc_fields e vs1 fds1 ++ tail).
+  replace (4 * length bs + 64)%nat with (S (4 * length bs + 63)) by lia.
+  destruct (struct_priors1 e (4 * length bs + 63) sid (zero_struct e sid) (zero_struct_zlike e k sid Hwf Hk)) as (ps & -> & Hps).
+  pose proof (members_ok e k Hwf sid) as Hmem. pose proof (wf_asc k e Hwf sid) as Hasc.
+  destruct n as [|n']; [discriminate|]. cbn [tfin tneed] in Hfin, Hn. rewrite forallb_forall in Hfin.
+  rewrite Hsid in *.
+  apply Forall2_app_inv_l in Hps. destruct Hps as (ps1 & ps2 & Hps1 & _ & ->).
+  apply Forall_app in Hmem. destruct Hmem as [Hmem1 _].
+  assert (Hb : (need_list vs1 <= 1 + length fds1 + tmax (tneed n' e) fds1 + 2 * length (enc_fields e vs1 fds1))%nat).
+  { apply need_fields_bound. apply fields_bound_aux; [assumption|].
+    intros fd' Hin x tag' req' d' Hx. apply need_bound; [|assumption]. apply Hfin. apply in_or_app. now left. }
+  pose proof (tmax_app_l (tneed n' e) fds1 (fd :: fds2)) as Hm. rewrite app_length in Hn. cbn [length] in Hn.
+  assert (Hlen : (length (enc_fields e vs1 fds1) <= length bs)%nat) by (unfold bs; rewrite app_length; lia).
+  assert (HD : dec_fields (S (4 * length bs + 63)) e (fds1 ++ fd :: fds2) (ps1 ++ ps2) bs = DErr).
+  { revert Hlen. unfold bs. rewrite <- (encx_nil e vs1 fds1) by (now apply Forall2_len in H1). intros Hlen.
+    apply (fields_member_error e k Hwf _ fds1 vs1 ps1 ps2 _ None); try assumption.
+    - apply junks_nil.
+    - unfold fuel_ok. rewrite encx_nil in * by (now apply Forall2_len in H1). lia. }
+  now rewrite HD.
 Qed.
 
 (* an input written without a member the reader requires is rejected *)
@@ -1212,9 +1260,15 @@ Proof.
   assert (Hlen : (length (enc_fields e vs1 fds1) <= length bs)%nat) by (unfold bs; rewrite app_length; lia).
   assert (HD : dec_fields (S (4 * length bs + 63)) e (fds1 ++ fd :: fds2) (ps1 ++ ps2) bs = DErr).
   { revert Hlen. unfold bs. rewrite <- (encx_nil e vs1 fds1) by (now apply Forall2_len in H1). intros Hlen.
-    apply (fields_required_absent e k Hwf _ fds1 vs1 ps1 ps2 _ None); try assumption.
+    assert (Hfo : follows (ftag fd) (enc_fields e vs2 fds2)).
+    { apply enc_fields_follows; [|assumption]. now apply (schema_ascending_mid fds1). }
+    apply (fields_member_error e k Hwf _ fds1 vs1 ps1 ps2 _ None); try assumption.
     - apply junks_nil.
-    - apply enc_fields_follows; [|assumption]. now apply (schema_ascending_mid fds1).
+    - intros f' prior Hf'. rewrite Hreq. destruct f' as [|f'']; [lia|].
+      pose proof (member_absent_required e f'' (ftag fd) (fty fd) prior None [] _ (junk_nil None (ftag fd)) Hfo) as H9.
+      cbn [ser_fields app] in H9. apply H9. lia.
+    - intros fd1 Hin. apply (follows_mono _ (ftag fd)); [|assumption].
+      apply (schema_ascending_before fds1 fd fds2 fd1 Hasc Hin).
     - unfold fuel_ok. rewrite encx_nil in * by (now apply Forall2_len in H1). lia. }
   now rewrite HD.
 Qed.
